@@ -73,6 +73,14 @@ Theorem C13_source_get_valence : forall gg vtv tv s v, rep_gstate gg vtv tv s ->
   TranslatedImpCFGraph.CFGraph_get_valence vtv v = if Nat.ltb v (gn s) then PyOk (nthZ (valc s) v) else PyExn tt.
 Proof. exact get_valence_refines. Qed.
 Print Assumptions C13_source_get_valence.
+(* batch insertion, as translated from the current source (the duplicate-edge warning is bookkeeping and is skipped): one add_edge per entry, in order;
+   it raises at the first refused entry, and the dictionaries then represent the state in which the EARLIER entries are applied - refused per edge *)
+Theorem C13_source_add_edges : forall gg vtv tv s es, ginv s -> rep_gstate gg vtv tv s ->
+  match TranslatedImpCFGraph.CFGraph_add_edges gg vtv tv es with
+  | PyOk (gg', vtv', tv') => snd (add_edges s es) = true /\ rep_gstate gg' vtv' tv' (fst (add_edges s es))
+  | PyExn (gg', vtv', tv') => snd (add_edges s es) = false /\ rep_gstate gg' vtv' tv' (fst (add_edges s es)) end.
+Proof. intros. apply add_edges_refines; assumption. Qed.
+Print Assumptions C13_source_add_edges.
 (* every state satisfying the invariant has such dictionaries *)
 Theorem C13_source_states_representable : forall s, ginv s -> rep_gstate (dict_of_graph (adj s)) (dict_of_div (valc s)) (tot s) s.
 Proof. intros s (Hwf & HL & _). split; [apply rep_graph_of; exact Hwf|]. split; [rewrite <- HL; apply rep_div_of|reflexivity]. Qed.
